@@ -995,27 +995,60 @@ func (c *Ctx) concreteKeyVal(fr *Frame, k Value) Value {
 	return k
 }
 
-func (c *Ctx) mapGet(fr *Frame, m *Map, k Value) (Value, bool) {
+// mapFind returns the index of the entry with key k, or -1. Keys that contain symbolic parts are
+// compared entry by entry with a decision per comparison (no case split over byte values).
+func (c *Ctx) mapFind(fr *Frame, m *Map, k Value) int {
 	if m == nil {
-		return nil, false
+		return -1
 	}
-	i, ok := m.index[c.mapKey(fr, k)]
-	if !ok {
+	if !m.symKeys && !c.symbolicVal(k, 0) {
+		if i, ok := m.index[c.mapKey(fr, k)]; ok {
+			return i
+		}
+		return -1
+	}
+	for i, e := range m.entries {
+		if e.deleted {
+			continue
+		}
+		eq := c.valEq(fr, e.k, k)
+		if c.branch(eq, fr) {
+			return i
+		}
+	}
+	return -1
+}
+
+func (c *Ctx) mapGet(fr *Frame, m *Map, k Value) (Value, bool) {
+	i := c.mapFind(fr, m, k)
+	if i < 0 {
 		return nil, false
 	}
 	return m.entries[i].v, true
 }
 
 func (c *Ctx) mapSet(fr *Frame, m *Map, k, v Value) {
-	k = c.concreteKeyVal(fr, k)
-	key := c.mapKey(fr, k)
-	if i, ok := m.index[key]; ok {
+	if i := c.mapFind(fr, m, k); i >= 0 {
 		e := m.entries[i]
 		if c.initMode == 0 {
 			c.undo = append(c.undo, undoRec{me: e, old: e.v})
 		}
 		e.v = v
 		return
+	}
+	sym := c.symbolicVal(k, 0)
+	key := ""
+	if sym {
+		m.symSeq++
+		key = fmt.Sprintf("~sym%d", m.symSeq)
+		if !m.symKeys {
+			m.symKeys = true
+			if c.initMode == 0 {
+				c.undo = append(c.undo, undoRec{m: m, symFlag: true})
+			}
+		}
+	} else {
+		key = c.mapKey(fr, k)
 	}
 	e := &mapEntry{k: k, v: v}
 	m.entries = append(m.entries, e)
@@ -1027,15 +1060,17 @@ func (c *Ctx) mapSet(fr *Frame, m *Map, k, v Value) {
 }
 
 func (c *Ctx) mapDelete(fr *Frame, m *Map, k Value) {
-	if m == nil {
-		return
-	}
-	key := c.mapKey(fr, k)
-	i, ok := m.index[key]
-	if !ok {
+	i := c.mapFind(fr, m, k)
+	if i < 0 {
 		return
 	}
 	e := m.entries[i]
+	key := ""
+	for kk, idx := range m.index {
+		if idx == i {
+			key = kk
+		}
+	}
 	e.deleted = true
 	delete(m.index, key)
 	m.live--
